@@ -45,6 +45,8 @@ def scen_spec(name):
     # keep the lanelet goal consistent with the shifted lanelet
     sp["pps"][0]["goal"]["states"][1]["attrs"]["position"] = speclib.lanelet_goal_shape(sp, [2])
     if name == "s1":
+        # (s1's set-based obstacle has an occupancy whose time interval has equal bounds: it stays an interval)
+        speclib.find(sp, "obstacles", 32)["prediction"]["occ"][1]["t"] = ["iv", 2, 2]
         # the goal lanelets of s1 are listed in non-ascending order (a writer that tidies its input in place changes what the next writer sees)
         sp["pps"][0]["goal"]["lanelets"] = {1: [2, 1]}
         sp["pps"][0]["goal"]["states"][1]["attrs"]["position"] = speclib.lanelet_goal_shape(sp, [2, 1])
@@ -133,6 +135,8 @@ def make_enabled(tier, max_writers):
                 for p in precisions(tier):
                     for s in ("s1", "s2"):
                         ops.append(["new", f, p, s])
+                # a writer constructed without naming a precision: it writes with the documented default of 4 decimals, whatever other writers exist
+                ops.append(["new", f, None, "s1"])
         for i, w in enumerate(model["writers"]):
             ops.append(["write", i]); ops.append(["write_scenario", i])
             ops.append(["write_checked", i])    # write_to_file with check_validity=True: the same file as without the check
@@ -162,10 +166,11 @@ def step(world, model, op):
     try:
         if k == "new":
             sc, pps = world.scenario(op[3])
-            w = CommonRoadFileWriter(sc, pps, sc.author, sc.affiliation, sc.source, sc.tags, sc.location, decimal_precision=op[2],
-                                     file_format=FileFormat.XML if op[1] == "xml" else FileFormat.PROTOBUF)
+            kw_ = {} if op[2] is None else {"decimal_precision": op[2]}
+            w = CommonRoadFileWriter(sc, pps, sc.author, sc.affiliation, sc.source, sc.tags, sc.location,
+                                     file_format=FileFormat.XML if op[1] == "xml" else FileFormat.PROTOBUF, **kw_)
             world.writers.append(w)
-            m["writers"].append([op[1], op[2], op[3], 0, 0])
+            m["writers"].append([op[1], 4 if op[2] is None else op[2], op[3], 0, 0])
         else:
             i = op[1]
             fmt, prec, scen = m["writers"][i][:3]
